@@ -330,7 +330,14 @@ theorem spec_verdict_model (L : Layout) (x0 : Machine) (h0 : Machine.init L = so
   unfold specVerdict
   simp only [lastStatus] at hst
   cases hl : tr.getLast? with
-  | none => exact hv
+  | none =>
+    rw [hl] at hst
+    simp only [statusRel] at hst
+    have hrun : statusOf x' = "running" := by
+      obtain ⟨v', c'⟩ := x'
+      cases c' <;> first | (exact absurd rfl hty) | rfl | (simp [Ctl.isDone] at hst)
+    simp only [hrun, beq_self_eq_true, if_true]
+    exact hv
   | some e =>
     rw [hl] at hst
     simp only at hst ⊢
